@@ -540,7 +540,7 @@ Proof. destruct r as [| | | | | |l|[|x [|y l]]|kv|n]; reflexivity. Qed.
 (* the universal forms of the two library hypotheses imply the pointwise ones *)
 Theorem json_universal_pointwise (loads : str -> Res pv) m :
   (forall v s, jsonable v = true -> json_dumps v = Ok s -> loads s = Ok v) ->
-  msg_wf m = true -> floats_ok (msg_payload m) = true -> msg_small m -> msg_json_ok loads m.
+  msg_wf m = true -> lex_ok (msg_payload m) = true -> msg_small m -> msg_json_ok loads m.
 Proof.
   intros Hu Hwf Hfl Hs s Hd. apply Hu; [|exact Hd].
   destruct (msg_wf_input m Hwf) as (_ & _ & Hw).
